@@ -11,7 +11,7 @@ import (
 
 // Statics is a deliberately colliding pool of static segments.
 // "$b", "!" and "+a" start with bytes that sort before '*' ('!', '$') or between '*' and '/' ('+'): edge order around wildcard children.
-var Statics = []string{"a", "b", "ab", "abc", "a.b", "x", "foo", "foobar", "$b", "!", "+a"}
+var Statics = []string{"a", "b", "ab", "abc", "a.b", "x", "foo", "foobar", "$b", "!", "+a", "a}", "}x"}
 
 // Values is the pool wildcard values are drawn from; it overlaps Statics so that
 // static, parameter and catch-all alternatives compete for the same requests.
